@@ -121,6 +121,24 @@ func c11Observe(path string, src []byte, withResolver bool) ([]obj, string) {
 		return out, ""
 	}
 	out = append(out, mapsRecord("restorer", raf, df, r.Map))
+	// a second restorer that also restores objects and scopes (Extras): declarations are then reached a second
+	// time through Object.Decl; its maps obey the same laws
+	var r2 *decorator.Restorer
+	if withResolver {
+		r2 = decorator.NewRestorerWithImports("example.com/local", guess.New())
+	} else {
+		r2 = decorator.NewRestorer()
+	}
+	r2.Extras = true
+	var raf2 *ast.File
+	if msg := guard(func() { raf2, err = r2.RestoreFile(df) }); msg != "" {
+		return out, "restore with Extras: " + msg
+	}
+	if err == nil {
+		rec := mapsRecord("restorer", raf2, df, r2.Map)
+		rec["extras"] = true
+		out = append(out, rec)
+	}
 	return out, ""
 }
 
